@@ -682,7 +682,10 @@ class C2Profile(ConfigBlock):
                 stage.set_config_block("beacon_gate", block)
 
         if c2_recover:
-            http_get.set_non_empty_config_block("server", HttpOptionsBlock(output=DataTransformBlock(steps=c2_recover)))
+            # SETTING_C2_RECOVER is in recover order, the profile lists the steps in transform order
+            http_get.set_non_empty_config_block(
+                "server", HttpOptionsBlock(output=DataTransformBlock(steps=c2_recover[::-1]))
+            )
         http_get.set_non_empty_config_block("client", http_get_client)
         profile.set_non_empty_config_block("http_get", http_get)
         http_post.set_non_empty_config_block("client", http_post_client)
